@@ -864,6 +864,21 @@ type heapKey struct {
 	sort *Sort
 }
 
+// globalKeyOf: heap key of a package-level variable named in a contract of package pkgPath ("" if there is none).
+func (e *Engine) globalKeyOf(pkgPath, name string) string {
+	if _, ghost := e.cs.Vars[name]; ghost {
+		return ""
+	}
+	p := e.pkgs[pkgPath]
+	if p == nil {
+		return ""
+	}
+	if v, ok := p.Types.Scope().Lookup(name).(*types.Var); ok {
+		return "global:" + v.Pkg().Path() + "." + v.Name()
+	}
+	return ""
+}
+
 // modKeys: heap keys (whole field arrays) touched by a modifies item, resolved by types only.
 func (e *Engine) modKeys(fc *FuncContract, m *SExpr) []heapKey {
 	var out []heapKey
@@ -873,6 +888,12 @@ func (e *Engine) modKeys(fc *FuncContract, m *SExpr) []heapKey {
 			c := &specCtx{e: e, pkgPath: gv.PkgPath}
 			s, _ := c.sortOfTypeStr(gv.Type)
 			return []heapKey{{"ghost:" + m.Name, s}}
+		}
+		if fi := e.funcs[fc.Key]; fi != nil {
+			if k := e.globalKeyOf(fi.Pkg.PkgPath, m.Name); k != "" {
+				v := e.pkgs[fi.Pkg.PkgPath].Types.Scope().Lookup(m.Name).(*types.Var)
+				return []heapKey{{k, e.sortOf(v.Type())}}
+			}
 		}
 	}
 	t := e.staticTypeOf(fc, m)
@@ -957,8 +978,17 @@ func (fr *Frame) havocModItem(st *State, m *SExpr, b map[string]*SVal, pkgPath s
 			return
 		}
 	}
+	if m.Kind == "id" {
+		if k := e.globalKeyOf(pkgPath, m.Name); k != "" {
+			v := e.pkgs[pkgPath].Types.Scope().Lookup(m.Name).(*types.Var)
+			nv := Fresh("g$"+m.Name, e.sortOf(v.Type()))
+			st.Assume(e.typeFacts(nv, v.Type(), st))
+			st.heap[k] = nv
+			return
+		}
+	}
 	if m.Kind != "sel" {
-		panic(specErr{"modifies item must be a field path or ghost variable: " + m.String()})
+		panic(specErr{"modifies item must be a field path, a package-level variable or a ghost variable: " + m.String()})
 	}
 	if owner, fs := e.typeWideMod(m, b, pkgPath); fs != nil {
 		// `modifies T.f`: field f of every object of type T
